@@ -150,6 +150,11 @@ class Module:
         self.source = source
         try:
             self.tree = ast.parse(source, filename=relpath, type_comments=True)
+            for node in ast.walk(self.tree):
+                if isinstance(node, ast.comprehension):
+                    # generator clauses carry no position of their own
+                    for attr in ('lineno', 'col_offset', 'end_lineno', 'end_col_offset'):
+                        setattr(node, attr, getattr(node.iter, attr, None))
         except SyntaxError as err:
             raise AnalysisError('cannot parse %s: %s' % (relpath, err))
         self.bindings = {}  # name -> binding tuple
